@@ -56,4 +56,55 @@ def Fn.callAt (f : Fn) (n : Nat) : Option PCall := (f.nodes[n]?).map (·.call)
 
 def Fn.entry (f : Fn) (flag : Bool) : Option Edge := if flag then f.entryT else f.entryF
 
+/-! ### `Semaphore::wait(int64)`: calls with an errno class, one counted loop `for(int i = a; i < timeout; i += b)` -/
+
+inductive SCall | semTimedWait | semTryWait | usleep (us : Nat)
+deriving DecidableEq, Repr
+
+/-- operation on the loop variable performed by the library code after a call -/
+inductive CtrOp | init (a : Nat) | add (b : Nat)
+deriving DecidableEq, Repr
+
+/-- where the library code ends; `ifLess t e` = the loop test `i < timeout` (after the counter operation of the edge) -/
+inductive PNext | node (n : Nat) | ret (b : Bool) | ifLess (thn els : PNext)
+deriving DecidableEq, Repr
+
+structure PEdge where
+  ctr : Option CtrOp
+  next : PNext
+deriving DecidableEq, Repr
+
+/-- how the pending call ended: success, or -1 with errno EINTR / ENOSYS / anything else -/
+inductive Outcome | ok | eintr | enosys | other
+deriving DecidableEq, Repr
+
+structure PNode where
+  call : SCall
+  ok : Option PEdge
+  eintr : Option PEdge
+  enosys : Option PEdge
+  other : Option PEdge
+deriving DecidableEq, Repr
+
+structure PollFn where
+  entry : Option PEdge
+  nodes : List PNode
+deriving DecidableEq, Repr
+
+def CtrOp.apply : Option CtrOp → Nat → Nat
+  | none, i => i
+  | some (.init a), _ => a
+  | some (.add b), i => i + b
+
+/-- decide the loop tests with the value `i` of the loop variable and the time-out `ms` -/
+def PNext.resolve (i ms : Nat) : PNext → PNext
+  | .ifLess t e => if i < ms then t.resolve i ms else e.resolve i ms
+  | x => x
+
+def PollFn.after (f : PollFn) (n : Nat) (o : Outcome) : Option PEdge :=
+  match f.nodes[n]? with
+  | none => none
+  | some nd => match o with
+    | .ok => nd.ok | .eintr => nd.eintr | .enosys => nd.enosys | .other => nd.other
+
 end Nstd.Sync.Cfg
